@@ -496,7 +496,72 @@ MUTATIONS = [m_move_pin_within_bus, m_port_direction, m_port_wider, m_port_narro
              m_add_definition, m_drop_port, m_add_port, m_drop_cable, m_add_cable, m_drop_instance, m_add_instance]
 
 
+def probe_verilog_roundtrip_order():
+    """Open finding comparer-depends-on-pin-order-within-wire: a faithful Verilog write-then-read copy is rejected."""
+    d = tempfile.mkdtemp(prefix="c20p_")
+    try:
+        f = os.path.join(d, "s.v")
+        with open(f, "w") as fh:
+            fh.write("module top(a, y, z);\n input a; output y; output z;\n wire w;\n BUF u0(.I(a), .O(w));\n assign y = w;\n assign z = w;\nendmodule\n")
+        n = sdn.parse(f)
+        g = os.path.join(d, "o.v")
+        sdn.compose(n, g)
+        b = sdn.parse(g)
+        return isinstance(run_compare(n, b), AssertionError)
+    finally:
+        shutil.rmtree(d, ignore_errors=True)
+
+
+def verilog_origin(ctx, rng):
+    """A reader-produced netlist of the other kind: parsed from structural Verilog, assign statements included (they become
+    instances named SDN_VERILOG_ASSIGNMENT_<width>_<n> of generated cells)."""
+    from .. import vmodel
+    d = tempfile.mkdtemp(prefix="c20v_")
+    try:
+        feats = ["shuffle"] + [x for x in ("assigns", "consts", "params", "attrs") if rng.random() < 0.6]
+        f = os.path.join(d, "s.v")
+        with open(f, "w") as fh:
+            fh.write(vmodel.write(vmodel.gen_design(rng, feats), rng, feats))
+        return sdn.parse(f)
+    finally:
+        shutil.rmtree(d, ignore_errors=True)
+
+
 def run_case(ctx, i, rng):
+    verilog = (i % 5 == 3)
+    if verilog:
+        try:
+            n = verilog_origin(ctx, rng)
+        except Exception as ex:  # noqa: BLE001 - C06's business
+            ctx.count("verilog_source_rejected:%s" % type(ex).__name__)
+            return
+        ctx.count("verilog_origin_netlists")
+        # write-then-read in its own format: the re-read netlist is a faithful copy
+        has_assign = any(c.name and c.name.startswith("SDN_VERILOG_ASSIGNMENT") for d_ in defs_of(n) for c in d_.children)
+        if common.fenced(sys.modules[__name__], "comparer-depends-on-pin-order-within-wire"):
+            ctx.count("fenced:verilog-roundtrip-compare")
+        else:
+            d = tempfile.mkdtemp(prefix="c20w_")
+            try:
+                g = os.path.join(d, "o.v")
+                try:
+                    sdn.compose(n, g)
+                    back = sdn.parse(g)
+                except Exception as ex:  # noqa: BLE001 - C04's business
+                    ctx.count("verilog_roundtrip_failed:%s" % type(ex).__name__)
+                    back = None
+                if back is not None:
+                    for x, y, tag in ((n, back, "verilog-roundtrip"), (back, n, "verilog-roundtrip-swapped")):
+                        ex = run_compare(x, y)
+                        ctx.count("positive_compares")
+                        ctx.count("positive_verilog_roundtrip")
+                        if ex is not None:
+                            ctx.violation("rejects-faithful-copy:verilog-roundtrip",
+                                          "compare(%s) raised %s: %s" % (tag, type(ex).__name__, str(ex)[:160]))
+                            return
+            finally:
+                shutil.rmtree(d, ignore_errors=True)
+        return compare_phase(ctx, i, rng, n, edif_roundtrip=False)
     n = gen_ir.generate(rng, profile="edif", ndefs=rng.randint(3, 7), share=0.5, max_children=4, outside=(i % 2 == 0))
     if plant_twins(rng, n):
         ctx.count("netlists_with_planted_same_named_twins")
@@ -525,6 +590,10 @@ def run_case(ctx, i, rng):
                 except ValueError:
                     refused += 1
     ctx.count("refused_renames_in_history", refused)
+    return compare_phase(ctx, i, rng, n, edif_roundtrip=True)
+
+
+def compare_phase(ctx, i, rng, n, edif_roundtrip):
     st = gen_ir.shape_stats(n)
     me = sys.modules[__name__]
     c0 = canon.canon_netlist(n)
@@ -555,7 +624,10 @@ def run_case(ctx, i, rng):
     # write-then-read in the netlist's own format (EDIF): the re-read netlist is a faithful copy
     d = tempfile.mkdtemp(prefix="c20_")
     try:
-        if i % 4 == 1:
+        src = back = None
+        if not edif_roundtrip:
+            pass
+        elif i % 4 == 1:
             import glob
             fs = sorted(glob.glob(os.path.join(common.REPO, "example_netlists", "EDIF_netlists", "*.edf.zip")))
             fs = [f for f in fs if 0 < os.path.getsize(f) <= 4000]
@@ -565,12 +637,13 @@ def run_case(ctx, i, rng):
             src, _ = rebuild(n)
             tag0 = "generated"
         f = os.path.join(d, "x.edf")
-        try:
-            sdn.compose(src, f)
-            back = sdn.parse(f)
-        except Exception as ex:  # noqa: BLE001 - C03's business
-            ctx.count("edif_roundtrip_failed:%s" % type(ex).__name__)
-            back = None
+        if src is not None:
+            try:
+                sdn.compose(src, f)
+                back = sdn.parse(f)
+            except Exception as ex:  # noqa: BLE001 - C03's business
+                ctx.count("edif_roundtrip_failed:%s" % type(ex).__name__)
+                back = None
         if back is not None:
             for x, y, tag in ((src, back, "edif-roundtrip"), (back, src, "edif-roundtrip-swapped")):
                 ex = run_compare(x, y)
@@ -652,4 +725,5 @@ def probe_clone_namespace():
     return p()
 
 
-PROBES = {"clone-not-registered-in-namespace": probe_clone_namespace}
+PROBES = {"clone-not-registered-in-namespace": probe_clone_namespace,
+          "comparer-depends-on-pin-order-within-wire": probe_verilog_roundtrip_order}
